@@ -42,6 +42,7 @@ type dirRepo struct {
 	wgBlock   chan struct{}
 	timeCheck time.Time
 	timeMod   time.Time
+	timeBlob  time.Time // last upload activity, timeMod is reset to the time index.json was written whenever the index is loaded
 	name      string
 	path      string
 	exists    bool
@@ -255,6 +256,10 @@ func (d *dir) gc(cur, prev time.Time) error {
 		// skip repos that were have not been recently updated
 		repo.mu.Lock()
 		outsideRange := repo.timeMod.Before(start)
+		// an upload since index.json was last written keeps the repository in the window of the scheduled passes
+		if outsideRange && !repo.timeBlob.Before(start) {
+			outsideRange = false
+		}
 		repo.mu.Unlock()
 		if outsideRange {
 			continue
@@ -420,6 +425,7 @@ func (dr *dirRepo) BlobCreate(opts ...BlobOpt) (BlobCreator, string, error) {
 		sessionID: sessionID,
 	}
 	dr.timeMod = time.Now()
+	dr.timeBlob = dr.timeMod
 	dr.uploads.Set(sessionID, bc)
 	return bc, sessionID, nil
 }
@@ -785,6 +791,7 @@ func (dru *dirRepoUpload) delete() error {
 	go func() {
 		dru.dr.mu.Lock()
 		dru.dr.timeMod = time.Now()
+		dru.dr.timeBlob = dru.dr.timeMod
 		dru.dr.mu.Unlock()
 	}()
 	// always return nil, even on errors, to allow entry to be removed from upload session list
